@@ -545,6 +545,13 @@ def handle (line : String) : String :=
           hasPrefix mime (ofString "model/gltf+json") || hasPrefix mime (ofString "application/x-ndjson")
         if d > Gen.Json.maxRecursion + 1 && jsonFamily then "SPEC C16:nesting-beyond-the-cap-reported-as-json" else "OK"
       | _ => "SPEC C16:detection-did-not-survive-the-bomb(" ++ goRes ++ ")"
+    | ["limflip", _l1, _l2, _hx] =>
+      match goRes.splitOn " " with
+      | [ecls, got, a, b] =>
+        if ecls != "nil" then "SPEC C05:unexpected-error-class"
+        else if got == a || got == b then "OK"
+        else "SPEC C06:result-is-not-a-sequential-result-for-either-limit"
+      | _ => "SPEC C01:no-result(" ++ goRes ++ ")"
     | ["treeeq"] =>
       let m := String.intercalate " " (dumpTree Gen.builtin)
       if m == goRes then "OK" else s!"DIFF tree model={m}"
